@@ -198,7 +198,9 @@ def names_in(e: ast.AST) -> set:
 def reassigned_names(fi: FuncInfo, names: Iterable[str]) -> list:
     """Names among `names` that are (re)bound inside the function body."""
     d = defs_of(fi)
-    return [n for n in names if n in d.defs]
+    # a parameter bound again, or a local bound more than once, can change between two uses; a single-assignment
+    # local is just a name for its value
+    return [n for n in names if n in d.defs and (n in d.params or len(d.defs[n]) > 1 or d.defs[n][0][1] != "assign")]
 
 
 def require(cond, msg):
